@@ -595,7 +595,7 @@ def _exec_c16(trace, res):
             continue
         # ---- success ------------------------------------------------------------------------------
         if fault in ("missing-junction", "missing-pipe", "unknown-std-type", "duplicate-index", "unknown-et", "pipe-not-at-junction",
-                     "duplicate-std-type-name", "no-std-type-data"):
+                     "duplicate-std-type-name", "no-std-type-data"):   # (all of these are re-derived from the net's state)
             res.violate("C16", "C16/invalid-accepted:%s:%s" % (fn, fault), "", oi)
             continue
         # ---- a successful call adds rows (and, for create_pump_from_parameters, exactly its new standard type):
@@ -686,7 +686,7 @@ def _exec_c16(trace, res):
 
 
 STATE_FAULTS = {"missing-junction", "missing-pipe", "pipe-not-at-junction", "duplicate-index", "unknown-std-type",
-                "duplicate-std-type-name", "no-std-type-data"}
+                "duplicate-std-type-name", "no-std-type-data", "unknown-et"}
 
 
 def _effective_fault(net, fn, kw, table):
@@ -699,6 +699,9 @@ def _effective_fault(net, fn, kw, table):
             if not set(vals) <= J:
                 return "missing-junction"
     if fn in ("create_valve", "create_valves"):
+        ets = kw.get("et")
+        if any(e_ not in ("ju", "pi") for e_ in (ets if isinstance(ets, list) else [ets])):
+            return "unknown-et"
         els = kw.get("element", kw.get("elements"))
         els = els if isinstance(els, list) else [els]
         if kw.get("et") == "ju" and not set(els) <= J:
